@@ -703,9 +703,18 @@ def gen_reconnect(rng, knobs=None):
                 prog.append(['settle'])
                 who_done = True
         if who == 'app' and not who_done:
-            if rng.random() < 0.45:
+            if rng.random() < k.get('p_window', 0.45):
                 # the application keeps issuing requests while the reconnect is under way: after k loop callbacks of it
                 prog.append(['reconnect', rng.choice([0, 1, 2, 3, 5, 7, 8, 9, 10, 11, 12, 13, 14, 16, 20])])
+                if rng.random() < k.get('p_fnf_then_request', 0.35):
+                    # a fire-and-forget that can no longer leave on the old connection, then - a few callbacks later, possibly on
+                    # the new connection already - a request that gets the same stream id
+                    prog.append(['fnf', 'c', spec(rng, big=False)])
+                    nref += 1
+                    prog.append(['step', rng.choice([0, 1, 2, 3, 4, 6])])
+                    prog.append(['rr', 'c', spec(rng, big=False), {'mode': 'immediate', 'resp': spec(rng, big=False)}])
+                    nref += 1
+                    prog.append(['step', rng.choice([1, 2, 3])])
                 for _ in range(rng.randint(1, 2)):
                     kind = rng.choice(['rr', 'rr', 'stream', 'fnf'])
                     sp = spec(rng, big=False)
